@@ -427,6 +427,15 @@ class ScriptedSim(mosaik_api_v3.Simulator):
     def _do_fault(self, kind):
         if kind == "raise":
             raise InjectedFault(f"injected failure in {self.sid}")
+        # a simulator may fail with any exception, e.g. one from its own I/O that happens to be a connection error
+        if kind == "raise_conn":
+            raise ConnectionRefusedError(f"injected failure in {self.sid}: its data source refused the connection")
+        if kind == "raise_eof":
+            raise asyncio.IncompleteReadError(b"", 4)
+        if kind == "raise_timeout":
+            raise asyncio.TimeoutError(f"injected failure in {self.sid}")
+        if kind == "raise_key":
+            raise KeyError(f"injected failure in {self.sid}")
         tr = getattr(self, "_mem_transport", None)
         if kind == "close" and tr is not None:
             tr.close()
@@ -761,9 +770,13 @@ def run_case(case, keep_world=False):
                     kw["weak"] = True
                 if c.get("init"):
                     kw["initial_data"] = {c["sa"]: init_token(c)}
+                if c.get("async"):
+                    kw["async_requests"] = True      # the flag on the same call as the data-flow
                 world.connect(ents[c["src"]][c["se"]], ents[c["dst"]][c["de"]], (c["sa"], c["da"]), **kw)
+            same_call = {(c["src"], c["dst"]) for c in scn.get("conns", []) if c.get("async")}
             for a in scn.get("async", []):
-                world.connect(ents[a[0]][0], ents[a[1]][0], async_requests=True)
+                if (a[0], a[1]) not in same_call:
+                    world.connect(ents[a[0]][0], ents[a[1]][0], async_requests=True)
             for sid, t in scn.get("initial_events", {}).items():
                 world.set_initial_event(sid, t)
         except Exception as e:  # noqa
